@@ -12,4 +12,5 @@ PROP = {'level': 'proof',
                'hook granularity and data-race freedom are NOT proved (the thorough tier runs a -race soak).',
  'trusted': ['hooks in /repo (build tag verif)', 'deterministic lab: fake PacketConn, parked SecretSource/handlers'],
  'assumptions': ['listener read errors originate from Shutdown\'s Close', 'handlers return when released'],
- 'shards': 16}
+ 'shards': 16,
+ 'facts': ['countedUnderLock']}
